@@ -2,6 +2,7 @@
    Area token: amppath. *)
 From Coq Require Import List NArith Bool Arith String.
 From Snow Require Import Lib.Wire Model.B64Url Model.AmpPath Model.CacheURL Model.Rendezvous.
+From Snow Require Model.BrokerHttp.
 Import ListNotations.
 Open Scope N_scope.
 
@@ -43,6 +44,15 @@ Definition run_path (args : list bytes) : option bytes :=
         option_map (fun d => path_res_print (decode_path (encode_path (repeat 0 9) d))) (payload_parse a)
       else if beq op (bs "b64") then
         option_map (fun d => xhex (u_encode d)) (payload_parse a)
+      else if beq op (bs "encwith") then
+        (* encwith <cache breaker> <data>: the encoder on the very bytes crypto/rand handed out *)
+        match args with
+        | [_; _; b] => match payload_parse a, payload_parse b with
+                       | Some cb, Some d => Some (xhex (encode_path cb d) ++ [SP] ++ path_res_print (decode_path (encode_path cb d)))
+                       | _, _ => None
+                       end
+        | _ => None
+        end
       else None
   | _ => None
   end.
@@ -110,6 +120,12 @@ Definition run_cache (args : list bytes) : option bytes :=
         | Some h, Some p => Some (xhex (join_host_port h p))
         | _, _ => None
         end
+      else if beq op (bs "resolve") then
+        (* resolve <base escaped path> <relative reference> -> the path of base.ResolveReference(&url.URL{Path: ref}) *)
+        match payload_parse a, payload_parse b with
+        | Some base, Some ref => Some (xhex (resolve_path base ref))
+        | _, _ => None
+        end
       else None
   | [op; _; _; ct; pf; cf; ou; pre; oa; sha] =>
       let h34 := if beq op (bs "cacheurl") then Some h34_runes
@@ -156,14 +172,14 @@ Definition run_rdv (args : list bytes) : option bytes :=
         | _, _, _, _, _ => None
         end
       else None
-  | [op; _; _; front; data; status; loc; resp; bodysize; alen; bf; cf; ou; pre; oa; sha] =>
+  | [op; _; _; front; data; status; loc; resp; bodysize; alen; bf; cf; ou; pre; oa; sha; cbt] =>
       if beq op (bs "amp") then
         match payload_parse front, payload_parse data, dec_parse status, bool_parse loc, payload_parse resp,
               dec_parse bodysize, dec_parse alen, broker_parse bf,
               (if beq cf (bs "n") then Some None else option_map Some (cache_parse cf)),
-              opt_payload_parse ou, opt_payload_parse pre, opt_payload_parse oa, payload_parse sha with
+              opt_payload_parse ou, opt_payload_parse pre, opt_payload_parse oa, payload_parse sha, payload_parse cbt with
         | Some front, Some data, Some status, Some loc, Some resp, Some bodysize, Some alen, Some b, Some cache,
-          Some ou, Some pre, Some oa, Some sha =>
+          Some ou, Some pre, Some oa, Some sha, Some cbv =>
             let miss := match cache, ou, pre with
                         | Some _, Some u, Some p => negb (beq (steps234 h34_runes u) p)
                         | Some _, Some _, None => true
@@ -173,13 +189,13 @@ Definition run_rdv (args : list bytes) : option bytes :=
             let n := N.to_nat (N.max bodysize alen) in
             let body := repeat 32 n in
             let adec := fun lr : bytes => if Nat.eqb (List.length lr) n then Some resp else None in
-            let q := amp_request (fun _ => ou) (fun _ => oa) (fun _ => sha) h34_runes b cache front (repeat 0 9) data in
+            let q := amp_request (fun _ => ou) (fun _ => oa) (fun _ => sha) h34_runes b cache front cbv data in
             Some (req_print q ++ [SP] ++
                   match q with
                   | None => bs "res=err"
                   | Some _ => res_body_print resp (amp_response adec READ_LIMIT status loc body)
                   end)
-        | _, _, _, _, _, _, _, _, _, _, _, _, _ => None
+        | _, _, _, _, _, _, _, _, _, _, _, _, _, _ => None
         end
       else None
   | _ => None
@@ -210,7 +226,60 @@ Definition run_broker (args : list bytes) : option bytes :=
   | _ => None
   end.
 
+(* broker2 <scenario> <answer> <body> <urlpath> <ipc ok,x<resp>|err> <shim n | <ipc ok|bad|internal|other>,x<resp>,<none|xA:xE>> <errresp>:
+   BOTH handlers of the model - post_handler and amp_handler - on the outcome of IPC.ClientOffers observed by a direct call
+   (for a '{'-leading body additionally the outcome of the call on the shimmed body, which feeds the legacy branch as modelled
+   for C14: BrokerHttp.client_offers). Armor is left out (the driver prints the armor-decoded AMP body). *)
+Definition reply_print (r : http_reply) : bytes := dec_print (h_status r) ++ [COMMA] ++ xhex (h_body r).
+Definition ipc_tok (t : bytes) : option (option bytes) :=
+  if beq t (bs "err") then Some None
+  else match split_on COMMA t with
+       | [o; b] => if beq o (bs "ok") then option_map Some (payload_parse b) else None
+       | _ => None
+       end.
+Definition hresp_reply (h : BrokerHttp.hresp) : http_reply :=
+  match h with BrokerHttp.HResp st b => {| h_status := st; h_body := b |} | BrokerHttp.HPanic => {| h_status := 0; h_body := bs "panic" |} end.
+Definition shim_fun (t : bytes) : option (bytes -> http_reply) :=
+  if beq t (bs "n") then Some (fun _ => {| h_status := 0; h_body := bs "no-shim-oracle" |})
+  else match split_on COMMA t with
+       | [o; b; d] =>
+           match payload_parse b with
+           | Some resp =>
+               let ipcv := if beq o (bs "ok") then BrokerHttp.IpcOk resp else if beq o (bs "bad") then BrokerHttp.IpcBadRequest
+                           else if beq o (bs "internal") then BrokerHttp.IpcInternal else BrokerHttp.IpcOtherErr in
+               let decoded : option BrokerHttp.cpresp :=
+                 match split_on COLON d with
+                 | [a; e] => match payload_parse a, payload_parse e with
+                             | Some a', Some e' => Some {| BrokerHttp.r_answer := a'; BrokerHttp.r_error := e' |}
+                             | _, _ => None
+                             end
+                 | _ => None
+                 end in
+               Some (fun body => hresp_reply (BrokerHttp.client_offers (fun _ _ => [49]) (fun _ => decoded) (fun _ => ipcv) BrokerHttp.H1 (BrokerHttp.ReadOk body) []))
+           | None => None
+           end
+       | _ => None
+       end.
+Definition run_broker2 (args : list bytes) : option bytes :=
+  match args with
+  | [op; _; _; body; upath; ipc; shim; errresp] =>
+      if beq op (bs "broker2") then
+        match payload_parse body, payload_parse upath, ipc_tok ipc, shim_fun shim with
+        | Some body, Some upath, Some ipcv, Some lp =>
+            let co := fun b : bytes => if beq b body then ipcv else Some (bs "!other-body") in
+            let er := match split_on COMMA errresp with
+                      | [st; b] => if beq st (bs "200") then payload_parse b else None
+                      | _ => None
+                      end in
+            Some (bs "post=" ++ reply_print (post_handler co lp body) ++ bs " amp=" ++ reply_print (amp_handler co (fun x => x) er upath))
+        | _, _, _, _ => None
+        end
+      else None
+  | _ => None
+  end.
+
 Definition run (args : list bytes) : bytes :=
+  match run_broker2 args with Some r => r | None =>
   match run_path args with
   | Some r => r
   | None => match run_cache args with
@@ -220,4 +289,4 @@ Definition run (args : list bytes) : bytes :=
                       | None => match run_broker args with Some r => r | None => ERR_BADCASE end
                       end
             end
-  end.
+  end end.
